@@ -310,15 +310,24 @@ inductive Refusal where
   | noStart
   deriving Repr, DecidableEq
 
-/-- the recorded jump targets that are still undefined at the end, and among them the one with the
-    smallest source position (the driver sorts the set before reporting; positions are unique per jump) -/
+/-- the recorded jump targets that are still undefined at the end, and among them the smallest
+    (position, name) pair: the driver sorts the set of pairs before reporting (several names can
+    share a position when one macro use expands to several jumps) -/
 def stillUndefined (st : Asm.St) : List (Nat × String) :=
   st.undefined.filter fun p => (st.labels.lookup p.2).isNone
+
+/-- the least string of a list (`<` on `String` is the byte-wise order for ASCII names, as `Ord for String` in Rust) -/
+def minName : List String → Option String
+  | [] => none
+  | a :: as => some (as.foldl (fun m x => if x < m then x else m) a)
 
 def firstUndefined (st : Asm.St) : Option (Nat × String) :=
   match ((stillUndefined st).map (·.1)).min? with
   | none => none
-  | some p => (stillUndefined st).find? (·.1 == p)
+  | some p =>
+    match minName (((stillUndefined st).filter (·.1 == p)).map (·.2)) with
+    | none => none
+    | some n => some (p, n)
 
 def preflight (st : Asm.St) : Except Refusal Nat :=
   match firstUndefined st with
